@@ -79,6 +79,40 @@ def _deref_point(f, l):
     return l.get('rec'), l['fld']
 
 
+def _global_pointee(f, root):
+    """name of the global a local pointer points into, when every definition of the local
+    is the address of (an element of) that global: `for (m = table; ..; m++)`,
+    `m = &table[i]`"""
+    if root is None or root['k'] != 'ref' or root.get('dk') != 'local':
+        return None
+    names = set()
+    n_defs = 0
+    for n in f.all_nodes():
+        src = None
+        if n['k'] == 'decl' and n.get('name') == root['name'] and n.get('c'):
+            src = f.kid(n, 0)
+        elif n['k'] == 'bin' and n['op'] == '=':
+            l = cu.strip_casts(f, f.kid(n, 0))
+            if l is not None and l['k'] == 'ref' and l['name'] == root['name']:
+                src = f.kid(n, 1)
+        if src is None:
+            continue
+        n_defs += 1
+        e = cu.strip_casts(f, src)
+        if e is not None and e['k'] == 'un' and e['op'] == '&':
+            e = cu.strip_casts(f, f.kid(e, 0))
+        while e is not None and e['k'] in ('sub', 'member', 'cast') and not e.get('arrow'):
+            e = f.kid(e, 0)
+        if e is not None and e['k'] == 'bin' and e['op'] == '+':
+            e = cu.strip_casts(f, f.kid(e, 0))
+        if e is not None and e['k'] == 'ref' and e.get('dk') in ('global', 'slocal') and \
+                '[' in (e.get('t') or ''):
+            names.add(e['name'])
+        else:
+            return None
+    return list(names)[0] if n_defs and len(names) == 1 else None
+
+
 def direct_effects(f):
     out = []
     for n in f.all_nodes():
@@ -101,6 +135,10 @@ def direct_effects(f):
                 if _via_pointer(f, l):
                     rec, fld = _deref_point(f, l)
                     out.append((('field', rec, fld), n))
+                    g = _global_pointee(f, root)
+                    if g is not None:
+                        # the record lives in a global table: a store to process-wide state
+                        out.append((('global', g), n))
                 elif root is not None and root['k'] == 'ref' and root.get('dk') in ('global', 'slocal'):
                     out.append((('global', root['name']), n))
                 continue
